@@ -71,3 +71,19 @@ where
     }
     acc
 }
+
+pub fn try_fold<I, B, F, R>(it: &mut I, init: B, mut f: F) -> R
+where
+    I: Iterator,
+    F: FnMut(B, I::Item) -> R,
+    R: Try<Output = B>,
+{
+    let mut acc = init;
+    while let Some(x) = it.next() {
+        match f(acc, x).branch() {
+            ControlFlow::Continue(a) => acc = a,
+            ControlFlow::Break(r) => return R::from_residual(r),
+        }
+    }
+    R::from_output(acc)
+}
